@@ -4,7 +4,7 @@ B ?= build
 CXX = g++
 INSTR = -fsanitize=thread --param tsan-instrument-func-entry-exit=0
 REPO_CXXFLAGS = -O1 -g -DNDEBUG -fno-omit-frame-pointer $(INSTR) -I$(REPO)/include -w
-HARN_CXXFLAGS = -O1 -g -fno-omit-frame-pointer $(INSTR) -I$(B)/shadow -I$(REPO)/include -Isim -fno-access-control -w
+HARN_CXXFLAGS = -O1 -g -DNDEBUG -fno-omit-frame-pointer $(INSTR) -I$(B)/shadow -I$(REPO)/include -I$(REPO)/src -Isim -fno-access-control -w
 SIM_CXXFLAGS = -O2 -g -fno-omit-frame-pointer -Isim -Wall -Wno-unused-function
 LDFLAGS = -no-pie -rdynamic -lpthread -lrt -ldl
 
@@ -46,8 +46,12 @@ $(B)/simrt.o: $(SIM_OBJS) Makefile
 	nm $@ | awk '$$2 ~ /^[WV]$$/ {print $$3}' | sort -u > $(B)/simrt.weak
 	objcopy --localize-symbols=$(B)/simrt.weak $@
 
+# harnesses that #include a repo .cpp (for access to private state) must not link the repo's own object of that file
+EXCL_c10_future = Future.o
+EXCL_c13_serverwrite = Socket/Server.o
+EXCL_c14_eventloop = Socket/Server.o
 $(B)/%: $(B)/h/%.o $(B)/simrt.o $(REPO_OBJS) Makefile
-	$(CXX) $(filter %.o,$^) -o $@ $(LDFLAGS)
+	$(CXX) $(filter-out $(addprefix $(B)/repo/,$(EXCL_$*)),$(filter %.o,$^)) -o $@ $(LDFLAGS)
 
 clean:
 	rm -rf $(B)
